@@ -34,6 +34,11 @@ def run_shards(prop, specs, timeout, jobs):
     pending = list(enumerate(specs))
     running = []
     env = dict(os.environ)
+    # every scratch directory of the shards lives below the run directory, which is removed at the end
+    # (also when a shard was killed by the watchdog or crashed before its own clean-up)
+    scratch = os.path.join(work, "scratch")
+    os.mkdir(scratch)
+    env["VT_SCRATCH"] = scratch
     try:
         while pending or running:
             while pending and len(running) < jobs:
